@@ -359,3 +359,14 @@ async fn push_workspace_diagnostic(
         );
     }
 }
+
+#[cfg(feature = "verif-hooks")]
+impl FileDiagnostic {
+    /// Verification only: see `ClientProxy::verif_touch_locks`.
+    pub fn verif_touch_locks(&self, label: &mut dyn FnMut(&str)) {
+        label("diagnostic_tokens");
+        drop(self.diagnostic_tokens.try_lock());
+        label("workspace_diagnostic_token");
+        drop(self.workspace_diagnostic_token.try_lock());
+    }
+}
